@@ -103,6 +103,9 @@ func (x *run) wit(extra ...any) map[string]any {
 	if errs := x.cl.EdgeErrors(); len(errs) > 0 {
 		w["edge_errors"] = errs
 	}
+	if ps := x.cl.RPCPanics(); len(ps) > 0 {
+		w["request_handler_panics"] = ps
+	}
 	return w
 }
 
@@ -232,6 +235,9 @@ func exactlyOnceCheck(h *ophar.Handler, key []byte, pl ophar.Payload, sh ophar.K
 }
 
 func (x *run) close() {
+	if n := len(x.cl.RPCPanics()); n > 0 {
+		x.c.Feat("request_handler_panics_recovered", int64(n))
+	}
 	x.cl.StopAll()
 	vhook.SetTuning(nil)
 }
